@@ -2,6 +2,7 @@ import Driver.OpsSteps
 import Driver.OpsValidate
 import Driver.OpsEngine
 import Driver.OpsFs
+import Driver.OpsPar
 
 open Lean Df.Codec
 
@@ -17,6 +18,7 @@ def ops : List (String × (Json → R Json)) :=
    ("hist", Df.Ops.opHist),
    ("plan", Df.Ops.opPlan),
    ("ejson", Df.Ops.opEjson),
+   ("sched", Df.Ops.opSched),
    ("ping", fun j => do return Json.mkObj [("ok", encPkg (← decPkg (← j.getObjVal? "pkg")))])]
 
 def handle (line : String) : String :=
